@@ -5,7 +5,7 @@
                   ( (role path optional) ... ) ppkey ( pre_ok ok cacheable size ( role ... ) ) )
           | ( delete path ) | ( restart ) | ( idle )
    lang   = c | rust          ppkey = ( ) | ( id )
-   arg    = ( h B ) | ( p B ) | ( cfg B ) | ( ext path digest ) | ( lp B ) | ( out B ) | ( u B )
+   arg    = ( h B ) | ( p B ) | ( sd B ) | ( cfg B ) | ( ext path digest ) | ( lp B ) | ( out B ) | ( u B )
    result = ( obs ... )       one per event
    obs    = ( kind compiled pre_ran stored ( (path [content]) ... ) nfiles total )   for a request
           | ( ev nfiles total )                                                      otherwise
@@ -39,6 +39,7 @@ Definition dec_arg (x : sx) : arg :=
   | SL [t; a] =>
       if is_sym "h" t then AHashed (get_B a)
       else if is_sym "p" t then AProfile (get_B a)
+      else if is_sym "sd" t then ASplitDwarf (get_B a)
       else if is_sym "cfg" t then ACfg (get_B a)
       else if is_sym "lp" t then ALinkPath (get_B a)
       else if is_sym "out" t then AOutput (get_B a)
